@@ -80,6 +80,10 @@ def gen_value(rng, name, dtype, default):
     return default
 
 
+def pinned(tier):
+    return [dict(cls="repo_test_suite", select=['tests/unit_tests'])] if tier == "thorough" else []
+
+
 def gen(rng, tier, k):
     cname = CLASS_NAMES[k % len(CLASS_NAMES)] if rng.random() < 0.8 else rng.choice(CLASS_NAMES)
     style = rng.choice(["empty", "one", "dups", "grid", "neg_frac", "grid", "many"])
@@ -119,6 +123,9 @@ def _b(v):
 
 
 def run(ctx, case):
+    if case.get("cls") == "repo_test_suite":
+        from rv.suite import run_repo_tests
+        return run_repo_tests(ctx, case.get("select"))
     import random
 
     import numpy as np
